@@ -103,7 +103,7 @@ def gen_field(rng, exact, tier, nd=None, nvdim=None, min_n=1):
             p1.append(F(lo))
             p2.append(F(hi))
         extra["corner_type"] = rng.choice(["int", "int64arr", "int32arr"])
-        tf = tfq(2.0 ** -rng.choice([20, 30, 40]))
+        tf = tfq(rng.choice([2.0 ** -20, 2.0 ** -30, 2.0 ** -40, 2.0 ** -40, 0.0, 0.0, 1.0]))
     elif exact:
         e = rng.choice([0, 0, 0, -200, -60, 60, 300])       # magnitudes 2^-200 .. 2^300: any absolute tolerance shows
         extra["pow2"] = e
@@ -115,19 +115,19 @@ def gen_field(rng, exact, tier, nd=None, nvdim=None, min_n=1):
                 lo, hi = hi, lo
             p1.append(lo * F(2) ** e)
             p2.append(hi * F(2) ** e)
-        tf = tfq(2.0 ** -rng.choice([20, 30, 40]))
+        tf = tfq(rng.choice([2.0 ** -20, 2.0 ** -30, 2.0 ** -40, 2.0 ** -40, 0.0, 0.0, 1.0]))
     else:
         s = rng.choice(SCALES)
         for k in n:
             cell = round(rng.uniform(0.5, 9.5), rng.choice([0, 1, 2]))
-            off = rng.choice([0.0, 0.0, round(rng.uniform(-50, 50), 1), round(rng.uniform(-900, 900), 1)])
+            off = rng.choice([0.0, 0.0, -float(k), round(rng.uniform(-50, 50), 1), round(rng.uniform(-900, 900), 1)])
             lo = off * cell * s
             hi = (off + k) * cell * s
             if rng.random() < 0.4:
                 lo, hi = hi, lo
             p1.append(F(lo))
             p2.append(F(hi))
-        tf = tfq(rng.choice([1e-12, 1e-12, 1e-9, 1e-6]))
+        tf = tfq(rng.choice([1e-12, 1e-12, 1e-9, 1e-6, 1e-3, 1e-30, 0.0, 0.0, 1.0]))
     dims = rng.sample(DIM_POOL, nd) if rng.random() < 0.7 else (["x", "y", "z"][:nd] if nd <= 3 else [f"x{i}" for i in range(nd)])
     units = [rng.choice(UNIT_POOL) for _ in range(nd)] if rng.random() < 0.7 else ["m"] * nd
     nvdim = nvdim or rng.choice([1, 1, 2, 3, 3, 4])
@@ -142,6 +142,8 @@ def gen_field(rng, exact, tier, nd=None, nvdim=None, min_n=1):
     dtype = rng.choice(DTYPES)
     unit = rng.choice([None, None, "A/m", "T", "J/m3", ""])
     data = gen_values(rng, dtype, math.prod(n) * nvdim, exact)
+    # falsy-but-present values separate 'restored if present' from 'restored if truthy'
+    extra["tf_type"] = rng.choice(["float", "np64", "int", "bool"] if tf in (0, 1) else ["float", "float", "np64"])
     extra["n_type"] = rng.choice(["list", "list", "tuple", "uint8", "int32", "int64arr", "uint16", "int8"])
     extra["nvdim_type"] = rng.choice([None, None, None, "int64", "int8", "uint16", "uint8", "int32"])
     return dict(exact=exact, p1=[S(x) for x in p1], p2=[S(x) for x in p2], dims=dims, units=units, tf=S(tf),
@@ -176,6 +178,10 @@ def gen_imports(rng, fs, tier):
         if fs["nvdim"] > 1 and rng.random() < 0.25:
             mods["drop_vdims_coord"] = True
         out.append(("attrs-" + ("".join(a[-3:] for a in sub) or "kept"), mods))
+    # present-but-empty cell containers (presence, not truthiness, decides where the cell comes from)
+    if rng.random() < 0.3:
+        out.append(("cell-empty", dict(attr_repr={"cell": rng.choice(["empty_tuple", "empty_list", "empty_array"])},
+                                       del_attrs=rng.choice([[], ["pmin"], ["pmin", "pmax"]]))))
     # rejections named by the property
     out.append(("no-nvdim", dict(del_attrs=["nvdim"] + rng.choice([[], list(GEO_ATTRS)]))))
     if fs["nvdim"] > 1:
@@ -184,7 +190,7 @@ def gen_imports(rng, fs, tier):
                                           del_attrs=rng.choice([[], list(GEO_ATTRS)]))))
         out.append(("nvdim-changed", dict(set_nvdim=rng.choice([k for k in (1, 2, 3, 4, 5) if k != fs["nvdim"]]))))
     else:
-        out.append(("nvdim-changed", dict(set_nvdim=rng.choice([0, -1, 2, 3]))))
+        out.append(("nvdim-changed", dict(set_nvdim=rng.choice([0, -1, 2, 3, False, 0.0]))))
     # new evenly spaced coordinates, geometry to be rebuilt from them
     for _ in range(2):
         coords = {}
@@ -233,7 +239,7 @@ def gen_imports(rng, fs, tier):
         kinds = ["tuple", "list", "npscalars", "f32array", "intlist", "ndarray"]
         rp = {a: rng.choice(kinds) for a in GEO_ATTRS}
         rp["nvdim"] = rng.choice(["int", "uint8", "int16", "int64", "uint32"])
-        rp["tolerance_factor"] = rng.choice(["np", "py"])
+        rp["tolerance_factor"] = rng.choice(["np", "py", "int", "bool"])
         sub = rng.choice([[], [], ["pmin"], ["pmax"], ["cell"], ["pmin", "pmax"]])
         out.append(("attr-types", dict(del_attrs=sub, attr_repr=rp)))
     if rng.random() < 0.15 and all(k >= 2 for k in fs["n"]):
@@ -400,7 +406,15 @@ def build_field(fs):
         p1, p2 = np.array([int(F(x)) for x in fs["p1"]], dtype=dt), np.array([int(F(x)) for x in fs["p2"]], dtype=dt)
     else:
         p1, p2 = [fl(x) for x in fs["p1"]], [fl(x) for x in fs["p2"]]
-    region = df.Region(p1=p1, p2=p2, dims=fs["dims"], units=fs["units"], tolerance_factor=float(F(fs["tf"])))
+    tfv = float(F(fs["tf"]))
+    tt = fs.get("tf_type")
+    if tt == "np64":
+        tfv = np.float64(tfv)
+    elif tt == "int" and tfv in (0.0, 1.0):
+        tfv = int(tfv)
+    elif tt == "bool" and tfv in (0.0, 1.0):
+        tfv = bool(tfv)
+    region = df.Region(p1=p1, p2=p2, dims=fs["dims"], units=fs["units"], tolerance_factor=tfv)
     mesh = df.Mesh(region=region, n=typed_n(fs["n"], fs.get("n_type")))
     nvdim = np.int64(fs["nvdim"]) if fs.get("np_nvdim") else fs["nvdim"]
     if fs.get("nvdim_type"):
@@ -524,7 +538,9 @@ def apply_mods(xa, fs, mods):
         v = xa.attrs[key]
         if key in GEO_ATTRS:
             vals = np.asarray(v).tolist()
-            if how == "tuple":
+            if how.startswith("empty_"):
+                v = {"empty_tuple": (), "empty_list": [], "empty_array": np.array([], dtype=float)}[how]
+            elif how == "tuple":
                 v = tuple(float(x) for x in vals)
             elif how == "list":
                 v = [float(x) for x in vals]
@@ -536,10 +552,17 @@ def apply_mods(xa, fs, mods):
                 v = [int(x) for x in vals]
             else:
                 v = np.array(vals, dtype=float)
+            if how.startswith("empty_"):
+                pass
         elif key == "nvdim":
             v = np.dtype(how).type(v) if how != "int" else int(v)
         elif key == "tolerance_factor":
-            v = np.float64(v) if how == "np" else float(v)
+            if how == "int" and float(v) == int(float(v)):
+                v = int(float(v))
+            elif how == "bool" and float(v) in (0.0, 1.0):
+                v = bool(float(v))
+            else:
+                v = np.float64(v) if how == "np" else float(v)
         xa.attrs[key] = v
     return xa
 
@@ -593,7 +616,7 @@ def close(a, b, scale, exact, rel=F(1, 10 ** 9)):
     return a == b if exact else abs(a - b) <= rel * scale
 
 
-def same_field(fo, go, lo_hi_exact):
+def same_field(fo, go, lo_hi_exact, check_tf=True):
     """the property's 'equal field with the same labels and dtype' on two observed fields"""
     bad = []
     if go["dims"] != fo["dims"] or go["n"] != fo["n"]:
@@ -610,7 +633,37 @@ def same_field(fo, go, lo_hi_exact):
         bad.append("round-trip-labels")
     if go["dtype"] != fo["dtype"]:
         bad.append("round-trip-dtype")
+    if check_tf and go["tf"] != fo["tf"]:
+        bad.append("round-trip-tolerance")
     return bad
+
+
+def tolerance_behaviour(rf, rg):
+    """the imported region must decide `point in region` like the exported one just outside the faces: at half and
+    twice the exported tolerance band and at 1e-13 / 1e-11 of the axis scale (a zero factor contains none of them)"""
+    bad = []
+    pmin, pmax = np.asarray(rf.pmin, dtype=float), np.asarray(rf.pmax, dtype=float)
+    edges = pmax - pmin
+    tf = float(rf.tolerance_factor)
+    centre = (pmin + pmax) / 2
+    for a in range(min(len(pmin), 2)):
+        sc = max(abs(pmin[a]), abs(pmax[a]), edges[a])
+        ds = [1e-13 * sc, 1e-11 * sc]
+        if 0 < tf < 1e-3:
+            band = edges.min() * tf + tf * abs(pmax[a])
+            ds += [0.5 * band, 2.0 * band]
+        for d in ds:
+            for face, sign in ((pmax[a], 1.0), (pmin[a], -1.0)):
+                p = centre.copy()
+                p[a] = face + sign * d
+                if p[a] == face:
+                    continue
+                inf_, ing_ = attempt(lambda: bool(tuple(p) in rf)), attempt(lambda: bool(tuple(p) in rg))
+                if inf_ != ing_:
+                    bad.append("round-trip-tolerance-behaviour")
+                elif tf == 0 and inf_ == ("ok", True):
+                    bad.append("zero-tolerance-contains-outside-point")
+    return sorted(set(bad))
 
 
 def export_oracle(st, o, unit_arg, exact):
@@ -774,7 +827,7 @@ def run_case(c):
         st, gfield = attempt(lambda: df.Field.from_xarray(f.to_xarray()))
         if st == "ok":
             go = observe_field(gfield)
-            rec["oracle"] = same_field(fo, go, True)
+            rec["oracle"] = same_field(fo, go, True) + tolerance_behaviour(f.mesh.region, gfield.mesh.region)
             obs_coq = f"(Some {field_coq(go)})"
             obs = short(go)
         else:
@@ -833,7 +886,7 @@ def run_case(c):
         go = None
         obs_coq = "None"
         obs = dict(err=gfield)
-    plain = not must_reject and "set_nvdim" not in mods and "rename_vdims" not in mods
+    plain = not must_reject and "set_nvdim" not in mods and "rename_vdims" not in mods and c["cls"] != "cell-empty"
     rebuildable = "cell" not in removed or all(k >= 2 for k in fs["n"])
     if plain and clearly_even and rebuildable and "coords" not in mods and "drop_coords" not in mods:
         # attributes complete, partly or wholly removed: the field comes back
@@ -846,7 +899,10 @@ def run_case(c):
             if mods.get("drop_vdims_coord"):
                 want["vdims"] = {2: ["x", "y"], 3: ["x", "y", "z"], 4: ["v0", "v1", "v2", "v3"]}[fs["nvdim"]]
             corners_exact = exact and True
-            bad += [b.replace("round-trip", "import") for b in same_field(want, go, corners_exact)]
+            bad += [b.replace("round-trip", "import") for b in
+                    same_field(want, go, corners_exact, check_tf="tolerance_factor" not in removed)]
+            if "tolerance_factor" not in removed:
+                bad += [b.replace("round-trip", "import") for b in tolerance_behaviour(f.mesh.region, gfield.mesh.region)]
             # a corner attribute that is present is passed through verbatim, in every regime and representation
             if ("pmin" not in removed and go["pmin"] != fo["pmin"]) or ("pmax" not in removed and go["pmax"] != fo["pmax"]):
                 bad.append("import-corners")
@@ -911,7 +967,7 @@ def run_state(c, rec):
             s2, gf = attempt(lambda: df.Field.from_xarray(f.to_xarray()))
             if s2 == "ok":
                 go = observe_field(gf)
-                bad += same_field(st, go, True)
+                bad += same_field(st, go, True) + tolerance_behaviour(f.mesh.region, gf.mesh.region)
                 obs_coq, obs = f"(Some {field_coq(go)})", dict(state=short(st), result=short(go), done=done)
             else:
                 bad.append("round-trip-rejected")
@@ -971,7 +1027,7 @@ def run_state(c, rec):
     if s2 != "ok":
         bad.append("second-round-trip-rejected")
     else:
-        bad += ["second-" + b for b in same_field(g1o, observe_field(g2), True)]
+        bad += ["second-" + b for b in same_field(g1o, observe_field(g2), True) + tolerance_behaviour(f.mesh.region, g2.mesh.region)]
     if fs["nvdim"] == 1 and fs["vdims"] is not None:
         rec["tags"] = [TAG_SLABEL]
     rec["oracle"] = sorted(set(bad))
